@@ -132,14 +132,28 @@ func sigs(gs []gor) []string {
 }
 
 // waitClean polls until there is no pending transaction and no goroutine beyond the baseline, or
-// until the bound has passed: a leak is what is still there after the bound, never one scan.
+// until the bound has passed: a leak is what is still there after the bound, never one scan. A
+// goroutine that is not blocked when the bound expires (runnable, running, in a system call: the
+// machine is busy, it is on its way out) extends the wait, up to five times the bound: only
+// goroutines that sit blocked are reported.
 func waitClean(txns func() int, baseline map[int]bool, bound time.Duration) (int, []gor) {
-	deadline := time.Now().Add(bound)
+	start := time.Now()
 	for {
 		t := txns()
 		l := leaked(baseline)
-		if (t == 0 && len(l) == 0) || time.Now().After(deadline) {
+		if t == 0 && len(l) == 0 {
 			return t, l
+		}
+		el := time.Since(start)
+		if el > bound {
+			moving := false
+			for _, g := range l {
+				s := g.state
+				moving = moving || strings.HasPrefix(s, "[runnable") || strings.HasPrefix(s, "[running") || strings.HasPrefix(s, "[syscall") || strings.HasPrefix(s, "[sleep")
+			}
+			if !moving || el > 5*bound {
+				return t, l
+			}
 		}
 		time.Sleep(200 * time.Microsecond)
 	}
